@@ -42,7 +42,7 @@ vars == <<mode, via, phase, seen, added, disk, ncalls, last>>
 Disk0 == [members |-> Base, version |-> 0]
 
 Init == /\ mode \in {"r", "w", "a"} /\ via \in {"path", "stream0", "streamX"}
-        /\ ~(mode = "r" /\ via = "streamX")               \* a reader given a stream that stands elsewhere refuses to open (Bad7zFile): no session
+        \* (a reader, too, looks for the archive at offset 0 of a caller's stream wherever it stands - since the repair; before, it refused)
         /\ phase = "open" /\ added = 0 /\ ncalls = 0 /\ last = [k |-> "open", raised |-> FALSE]
         /\ disk = IF mode = "w" THEN [members |-> 0, version |-> 0] ELSE Disk0
         \* what the session believes the archive holds: an appender that probes at the stream's position finds "no archive"
